@@ -777,3 +777,67 @@ def inline_lexical_helpers(fnode, depth=2):
     _set_parents(new_f)
     new_f._parent = getattr(fnode, "_parent", None)
     return new_f
+
+
+# --------------------------------------------------------------------------------------
+# late-binding closures (flake8-bugbear B023, disabled in the project's ruff.toml): a lambda / def created in a loop
+# that reads a variable the loop re-binds and that outlives the iteration sees the value of the LAST iteration
+STORING_CALLS = {"setattr", "append", "add", "insert", "extend", "update", "setdefault", "register", "register_on_import", "partial"}
+
+
+def late_binding_closures(fnode):
+    """-> (closures in loops inspected, [(closure node, sorted captured loop names, how it escapes)])"""
+    n, out = 0, []
+    for loop in [x for x in walk_no_nested(fnode) if isinstance(x, (ast.For, ast.While))]:
+        assigned = {y.id for y in ast.walk(loop.target) if isinstance(y, ast.Name)} if isinstance(loop, ast.For) else set()
+        for st in ast.walk(loop):
+            if isinstance(st, (ast.Assign, ast.AugAssign)):
+                for t in (st.targets if isinstance(st, ast.Assign) else [st.target]):
+                    for y in ast.walk(t):
+                        if isinstance(y, ast.Name):
+                            assigned.add(y.id)
+        for fn in ast.walk(loop):
+            if fn is loop or not isinstance(fn, (ast.Lambda, ast.FunctionDef)):
+                continue
+            a = fn.args
+            params = {q.arg for q in a.args + a.kwonlyargs + a.posonlyargs} | ({a.vararg.arg} if a.vararg else set()) | ({a.kwarg.arg} if a.kwarg else set())
+            body = fn.body if isinstance(fn, ast.Lambda) else fn
+            nodes = list(ast.walk(body)) if isinstance(fn, ast.Lambda) else [y for st in fn.body for y in ast.walk(st)]
+            local = {y.id for y in nodes if isinstance(y, ast.Name) and isinstance(y.ctx, ast.Store)}
+            free = {y.id for y in nodes if isinstance(y, ast.Name) and isinstance(y.ctx, ast.Load)} - params - local
+            # defaults bind at definition time (`lambda x, i=i: ...`): those names are parameters already
+            hit = free & assigned
+            if not hit:
+                continue
+            n += 1
+            escape = None
+            if isinstance(fn, ast.FunctionDef):
+                # a def in a loop escapes if its name is stored / returned / handed to a storing call
+                uses = [y for y in ast.walk(loop) if isinstance(y, ast.Name) and y.id == fn.name and isinstance(y.ctx, ast.Load)]
+                cands = uses
+            else:
+                cands = [fn]
+            for c in cands:
+                q, child = getattr(c, "_parent", None), c
+                while q is not None and q is not loop:
+                    if isinstance(q, ast.Call) and child is not q.func:
+                        nm = norm(q.func).split(".")[-1]
+                        if nm in STORING_CALLS:
+                            escape = f"handed to {nm}(...)"
+                            break
+                    if isinstance(q, ast.Assign) and any(isinstance(t, (ast.Attribute, ast.Subscript)) for t in q.targets):
+                        escape = f"stored by `{norm(q.targets[0])} = ...`"
+                        break
+                    if isinstance(q, (ast.Return, ast.Yield, ast.YieldFrom)):
+                        escape = "returned / yielded from inside the loop"
+                        break
+                    if isinstance(q, (ast.Dict, ast.List, ast.Tuple, ast.Set)) and isinstance(getattr(q, "_parent", None), ast.Assign):
+                        pass
+                    if isinstance(q, ast.stmt):
+                        break
+                    child, q = q, getattr(q, "_parent", None)
+                if escape:
+                    break
+            if escape:
+                out.append((fn, sorted(hit), escape))
+    return n, out
